@@ -36,6 +36,8 @@ type Obligation struct {
 	Script  string
 	Tainted string
 	pre     *factNode // path facts at the point of emission
+	goalNode *factNode // the fact node by which later obligations on the path assume this goal
+	Blocked string    // set when this obligation only held with an unproved earlier goal as hypothesis
 	x       *Exec
 }
 
@@ -95,6 +97,7 @@ func (x *Exec) emit(st *State, kind, name, goal string, tags []string, src strin
 	x.obls = append(x.obls, o)
 	// after asserting, assume (standard assert-then-assume)
 	st.assume(goal)
+	o.goalNode = st.facts
 }
 
 func (x *Exec) safetyTags() []string {
